@@ -43,7 +43,8 @@ RULE = ("case = (well-formed encoding, perturbation); encodings come from a "
         "shape); re-used objects (parse then create*/parse again must "
         "write like a fresh object); "
         "perturbations: none, every strict prefix, byte appended inside / "
-        "outside the outer length, +-1 at every byte offset (blind sweep for "
+        "outside the outer length, +-1 on every field that looks like a "
+        "length prefix, +-1 at every byte offset (blind sweep for "
         "encodings <= 300 bytes, sampled above), oversize fields for "
         "write(); non-trivial = encoding with at least one non-empty "
         "variable-length field (length >= 8 bytes) and a perturbation that "
@@ -492,6 +493,24 @@ def perturb(data, mut):
     if k == "append_inside":
         # grow the outermost length field by one and add a byte
         return None, True       # handled per kind
+    if k == "len":
+        # +-1 on a field that *looks like* a length prefix (its value, read
+        # with width 1, 2 or 3, reaches a point inside the encoding): inner
+        # lengths disagreeing with outer ones
+        cands = []
+        for w in (1, 2, 3):
+            for o in range(1 if mut[-1] == "msg" else 0, len(b) - w):
+                v = int.from_bytes(b[o:o + w], "big")
+                if 0 < v and o + w + v <= len(b):
+                    cands.append((o, w, v))
+        if not cands:
+            return bytes(b), False
+        o, w, v = cands[mut[1] % len(cands)]
+        nv = v + (1 if mut[2] else -1)
+        if nv >= 256 ** w:
+            return bytes(b), False
+        b[o:o + w] = nv.to_bytes(w, "big")
+        return bytes(b), True
     if k == "inc":
         # offset 0 of a message is the dispatch byte (message order is C06)
         pos = mut[1] % len(b)
@@ -1465,6 +1484,10 @@ def mut_strategy():
         st.tuples(st.just("prefix"), st.integers(0, 5000)).map(list),
         st.just(["append_outside"]), st.just(["append_inside"]),
         st.tuples(st.just("inc"), st.integers(0, 5000),
+                  st.booleans()).map(list),
+        st.tuples(st.just("len"), st.integers(0, 5000),
+                  st.booleans()).map(list),
+        st.tuples(st.just("len"), st.integers(0, 5000),
                   st.booleans()).map(list))
 
 
@@ -1511,6 +1534,9 @@ def explicit(tier, seed):
         step = 1 if (L <= 300 or tier == "thorough") else max(1, L // 150)
         for k in range(0, L, step):
             yield {"src": "corpus", "idx": i, "mut": ["prefix", k]}
+        for k in range(40 if tier == "quick" else 400):
+            yield {"src": "corpus", "idx": i, "mut": ["len", k, True]}
+            yield {"src": "corpus", "idx": i, "mut": ["len", k, False]}
         limit = L if (L <= 300 or tier == "thorough") else 120
         for k in range(0, limit):
             yield {"src": "corpus", "idx": i, "mut": ["inc", k, True]}
